@@ -149,7 +149,14 @@ def run_case(case):
     elif act in ("RW", "RW1C", "RW1S"):
         decoy(rng, lambda: getattr(action, act)(shape, init=init_value(desc, init_bits)))
         from vmon.simkit import omit
-        dut = getattr(action, act)(shape, **omit(rng, "action", init=init_value(desc, init_bits)))
+        kw_init = omit(rng, "action", init=init_value(desc, init_bits))
+        if "init" in kw_init and desc[0] == "u" and w and rng.random() < 0.2:
+            # the same bit pattern spelled as a negative integer (init=-1 is the all-ones idiom)
+            kw_init["init"] = init_bits - (1 << w)
+            mon_negative_init = True
+        elif init_bits == 0 and rng.random() < 0.3:
+            kw_init = {"init": None}           # "no particular initial value": the documented default applies
+        dut = getattr(action, act)(shape, **kw_init)
     else:
         decoy(rng, lambda: getattr(action, act)(shape))
         dut = getattr(action, act)(shape)
